@@ -148,8 +148,12 @@ def oracle(inp):
     if abs(pair[i] - e) > tol * alpha:
       return fail("pairwise covariance differs from alpha*phi(r)", float(pair[i]), e)
   cross = k.build_kernel_matrix(z, x)
-  for i in range(len(x)):
-    for j in range(len(z)):
+  cpairs = [(i, j) for i in range(len(x)) for j in range(len(z))]
+  if len(cpairs) > 20000:   # a seeded sample of the entries of a big cross matrix
+    rs2 = numpy.random.RandomState(len(cpairs) % 9973)
+    cpairs = [(int(rs2.randint(len(x))), int(rs2.randint(len(z)))) for _ in range(3000)]
+  for i, j in cpairs:
+    if True:
       e = alpha * phi(cls, r(x[i], z[j]))
       # the expansion |x|^2+|z|^2-2xz loses ~eps*|x|^2 in d2; allow for it through phi'
       d2 = r(x[i], z[j]) ** 2
@@ -203,6 +207,10 @@ def gen_input(rng):
   n, m = rng.randint(1, 7), rng.randint(1, 9)
   if rng.random() < 0.03:   # many sampled points in few dimensions
     dim, m = rng.randint(1, 3), rng.choice([999, 1000, 1001, 1500])
+    hp = [10.0 ** rng.uniform(-1, 1)] + [10.0 ** rng.uniform(-1, 1) for _ in range(dim)]
+  elif rng.random() < 0.02:  # a big rectangular batch: >= 1e5 point pairs in one cross-matrix call
+    dim, m = rng.randint(1, 3), rng.randint(35, 60)
+    n = -(-100000 // m) + rng.randint(1, 300)
     hp = [10.0 ** rng.uniform(-1, 1)] + [10.0 ** rng.uniform(-1, 1) for _ in range(dim)]
   sc = 10.0 ** rng.uniform(-2, 2)
   x = [[rng.uniform(-1, 1) * sc for _ in range(dim)] for _ in range(n)]
